@@ -13,8 +13,10 @@ pub mod p07;
 pub mod p08;
 pub mod p09;
 pub mod p10;
+pub mod p11;
 pub mod p15;
 pub mod p18;
+pub mod p20;
 
 /// (grammar index, rule index) pairs a property runs on.
 pub fn pairs<'w>(world: &'w World, families: &[&str]) -> Vec<(&'w GInfo, usize)> {
@@ -51,11 +53,39 @@ pub fn run_property(world: &World, ctx: &mut Ctx) -> Option<Value> {
         "C07" => p07::run(world, ctx),
         "C08" => p08::run(world, ctx),
         "C10" => p10::run(world, ctx),
+        "C11" => p11::run(world, ctx),
         "C09" => p09::run(world, ctx, ctx.dump.clone().as_deref()),
         "C15" => p15::run(world, ctx),
         "C18" => p18::run(world, ctx),
+        "C20" => p20::run(world, ctx),
         _ => None,
     }
+}
+
+/// Grammars whose derive output did not compile (written by the driver).  A failure that is
+/// not explained by one of the `allowed` open findings is a violation of C11 / C20.
+pub fn compile_failures(ctx: &mut Ctx, allowed: &[&'static str]) -> Option<Value> {
+    let path = std::path::Path::new(crate::common::VERIF_ROOT).join("work").join("compile_failures.json");
+    let v: Value = std::fs::read_to_string(&path).ok().and_then(|t| serde_json::from_str(&t).ok()).unwrap_or(Value::Array(vec![]));
+    let corpus: Value = std::fs::read_to_string(std::path::Path::new(crate::common::VERIF_ROOT).join("work").join("corpus.json")).ok().and_then(|t| serde_json::from_str(&t).ok()).unwrap_or(Value::Null);
+    for f in v.as_array().cloned().unwrap_or_default() {
+        ctx.ev.eval();
+        let id = f["grammar"].as_str().unwrap_or("").to_string();
+        let spec = corpus["specs"].as_array().and_then(|a| a.iter().find(|s| s["id"] == id).cloned()).unwrap_or(Value::Null);
+        let text = spec["text"].as_str().unwrap_or("");
+        let opts: Vec<String> = spec["options"].as_array().map(|a| a.iter().filter_map(|x| x.as_str().map(String::from)).collect()).unwrap_or_default();
+        // K5: pest_optimizer = false together with a counted repetition
+        let counted = crate::ir::Grammar::parse(text).map(|g| g.raw.iter().any(|r| r.expr.any(&|e| matches!(e, crate::ir::Expr::RepExact(..) | crate::ir::Expr::RepMin(..) | crate::ir::Expr::RepMax(..) | crate::ir::Expr::RepMinMax(..))))).unwrap_or(false);
+        if allowed.contains(&"K5") && ctx.open("K5") && counted && opts.iter().any(|o| o.replace(' ', "") == "pest_optimizer=false") {
+            ctx.ev.known_finding("K5");
+            if id.starts_with("kf_K5") {
+                crate::common::print_known(ctx.prop, "K5", "#[pest_optimizer = false] with a counted repetition ({n}, {n,}, {,m}, {n,m}) emits code that does not compile");
+            }
+            continue;
+        }
+        return Some(serde_json::json!({"property": ctx.prop, "kind": "compile", "grammar": spec, "rule": "", "input": "", "why": format!("pest accepts the grammar but the code the derive emits for it does not compile: {}", f["diagnostic"].as_str().unwrap_or(""))}));
+    }
+    None
 }
 
 /// Re-execute one saved case through its property's check.
@@ -72,6 +102,7 @@ pub fn replay_case(ctx: &mut Ctx, gi: &GInfo, rule: usize, doc: &Value) -> Optio
         "C08" => p08::replay(ctx, gi, rule, doc),
         "C09" => p09::replay(ctx, gi, rule, doc),
         "C10" => p10::check_input(ctx, gi, rule, input),
+        "C11" => p11::replay(ctx, gi, rule, doc),
         "C15" => p15::check_input(ctx, gi, rule, input),
         "C18" => p18::replay(ctx, gi, rule, doc),
         _ => return None,
